@@ -83,10 +83,10 @@ fn form_s(f: Form) -> String {
         Form::Stream { flate, w0zero } => format!("s{}{}", if flate { "f" } else { "" }, if w0zero { "z" } else { "" }),
     }
 }
-fn rev_json(r: &RevSpec) -> Value {
+pub fn rev_json(r: &RevSpec) -> Value {
     json!({"form": form_s(r.form), "defs": r.defs.iter().map(|(n,k)| json!([n, kind_s(*k)])).collect::<Vec<_>>()})
 }
-fn rev_from(v: &Value) -> RevSpec {
+pub fn rev_from(v: &Value) -> RevSpec {
     let f = v["form"].as_str().unwrap_or("c");
     let form = if f.starts_with('c') { Form::Classic } else { Form::Stream { flate: f.contains('f'), w0zero: f.contains('z') } };
     let defs = v["defs"]
@@ -219,7 +219,7 @@ fn product(opts0: &[RevSpec], optsn: &[RevSpec], k: usize, cur: &mut Vec<RevSpec
     }
 }
 
-fn random_history(r: &mut Rng, nobj: u32, k: usize, recovery: bool) -> Vec<RevSpec> {
+pub fn random_history(r: &mut Rng, nobj: u32, k: usize, recovery: bool) -> Vec<RevSpec> {
     (0..k)
         .map(|i| {
             let stream = r.chance(1, 2);
